@@ -233,6 +233,11 @@ class TaskScenario(ScenarioData):
 
         These are tasks T where T's dependencies include this task.
         """
+        # Looked up once per scenario (Project._buildSuccessorMap) when the map is there
+        maps = getattr(self.project, "_successorMaps", None)
+        if maps is not None and self.scenarioIdx in maps and self.property.leaf():
+            return list(maps[self.scenarioIdx].get(id(self.property), []))
+
         successors = []
         # A dependency on a container is a dependency on everything inside it: the container
         # ends when its last leaf does
